@@ -339,7 +339,8 @@ def _opt(rng, ids, p_none=0.5):
 def gen_read(rng, cfg, quads, kind=None):
     """one read-only call"""
     multi = cfg not in ("g", "view")
-    kinds = ["ser"] * 30 + ["q"] * 24 + ["path"] * 8 + ["cmp"] * 8 + ["basic"] * 14 + ["nav"] * 10 + ["iso"] * 4 + ["pathvar"] * 4
+    kinds = (["ser"] * 30 + ["q"] * 24 + ["path"] * 8 + ["cmp"] * 8 + ["basic"] * 14 + ["nav"] * 10 + ["iso"] * 4
+             + ["pathvar"] * 4 + ["serobj"] * 5)
     if multi:
         kinds += ["ctx"] * 16
     kind = kind or rng.choice(kinds)
@@ -347,6 +348,8 @@ def gen_read(rng, cfg, quads, kind=None):
     gsel = lambda: rng.choice([0, 1, 2, 3, 4, 9])  # noqa: E731
     if kind in ("iso", "pathvar"):
         return gen_aba(rng, cfg, {"quads": list(quads), "empty": []}, fam=kind)[1]
+    if kind == "serobj":       # a serializer plugin OBJECT kept by the caller and re-used (created at its first use)
+        return ["serobj", rng.choice(SER_FORMATS + ["turtle", "n3", "xml", "pretty-xml"])]
     if kind == "ser":
         fmt = rng.choice(SER_FORMATS + ["json-ld", "json-ld", "trig", "trix", "hext", "nquads"])
         return ["ser", fmt, rng.choice(OPTS_FOR.get(fmt, ["plain", "base", "bytes", "stream"]))]
@@ -387,7 +390,7 @@ def gen_read(rng, cfg, quads, kind=None):
     # context-aware reads (Dataset / ConjunctiveGraph only)
     f = rng.choice(["graphs", "contexts", "graphs_t", "quads", "contains4", "triples_ctx", "triples4", "get_context",
                     "get_graph", "default", "len_ctx", "iter_ds", "triples_choices_ctx", "aggregate", "store_contexts",
-                    "agg_len", "agg_contains", "agg_triples", "agg_quads"])
+                    "agg_len", "agg_contains", "agg_triples", "agg_quads", "default_ser"])
     q = some()
     # a triple held by several graphs: quads((s, p, o, g)) / aggregates / membership behave differently there
     shared = [x for x in quads if sum(1 for y in quads if y[:3] == x[:3]) > 1]
@@ -397,6 +400,8 @@ def gen_read(rng, cfg, quads, kind=None):
            q[2] if rng.random() < 0.6 else None]
     g = q[3] if rng.random() < 0.6 else gsel()
     how = rng.choice(["id", "view", "fresh", "view", "fresh"])   # identifier | ds.get_context() | Graph(store=…)
+    if f == "default_ser":
+        how = rng.choice(["turtle", "xml", "n3", "pretty-xml"])
     return ["ctx", f] + pat + [g, how]
 
 
@@ -415,12 +420,48 @@ def gen_aba(rng, cfg, case, fam=None):
     the schedule R, R', R must give the first answer again.  May extend the case (quads, binds, other graph)."""
     quads = case["quads"]
     fam = fam or rng.choice(["base", "base", "initb", "initns", "regex", "regex", "lang", "prefix", "prefix", "seropt",
-                      "generic", "order", "prepq", "prepq", "pathvar", "pathvar", "iso", "iso"])
+                      "generic", "order", "prepq", "prepq", "pathvar", "pathvar", "iso", "iso", "prefixleak", "prefixleak",
+                      "serobj", "serobj", "dgbase"])
     prep = rng.choice([4, 4, 0])
-    if fam in ("regex", "lang", "base", "initb", "order", "prepq", "pathvar"):
+    if fam in ("regex", "lang", "base", "initb", "order", "prepq", "pathvar", "prefixleak"):
         for q in MIX_QUADS:
             if q not in quads and cfg != "view":
                 quads.append(list(q))
+    if fam == "prefixleak":
+        # R relies on a prefix rdflib PREDEFINES for every query (no PREFIX line, no initNs entry) and is prepared afresh
+        # at every call (flag 16); R' declares that prefix for another namespace (PREFIX line or initNs)
+        pfx = rng.choice(["rdf", "rdf", "xsd", "rdfs"])
+        r_texts = {"rdf": ["SELECT ?s ?o WHERE { ?s rdf:type ?o }", "ASK { ?s rdf:type <http://t/ns#T> }",
+                           "SELECT ?s ?x WHERE { ?s rdf:first ?x }", "CONSTRUCT { ?s rdf:type ?o } WHERE { ?s rdf:type ?o }"],
+                   "xsd": ['SELECT ?s ?o WHERE { ?s ?p ?o FILTER(datatype(?o) = xsd:date) }',
+                           'SELECT ?s WHERE { ?s ?p ?o FILTER(?o = "1"^^xsd:string) }'],
+                   "rdfs": ["SELECT ?s WHERE { ?s ?p ?o FILTER(?p != rdfs:label) }"]}[pfx]
+        other = rng.choice([EX, "http://o/ns#"])
+        loc = {"rdf": "p", "xsd": "q", "rdfs": "p"}[pfx]
+        if rng.random() < 0.5:
+            r2 = ["q", "PREFIX %s: <%s> SELECT ?s ?o WHERE { ?s %s:%s ?o }" % (pfx, other, pfx, loc), rng.choice([0, 4])]
+        else:
+            r2 = ["q", "SELECT ?s ?o WHERE { ?s %s:%s ?o }" % (pfx, loc), rng.choice([0, 4]), {"ns": {pfx: other}}]
+        return fam, ["q", rng.choice(r_texts), 4 | 16], r2
+    if fam == "serobj":
+        case["reps"] = 3
+        fmts = ["turtle", "turtle", "n3", "n3", "xml", "pretty-xml", "nt", "longturtle", "trig", "json-ld", "nquads", "trix", "hext"]
+        a, b = rng.sample(sorted(set(fmts)), 2) if rng.random() < 0.4 else (rng.choice(fmts),) * 2
+        return fam, ["serobj", a], (["serobj", b] if rng.random() < 0.6 else ["ser", b, "plain"])
+    if fam == "dgbase":
+        # R shows the base of the dataset's own default graph, R' enumerates the graphs
+        if cfg in ("ds", "dsu"):
+            case["dgbase"] = True
+            if rng.random() < 0.8:
+                quads[:] = [q for q in quads if q[3] != 0]
+                case["empty"] = [g for g in case.get("empty", []) if g != 0]
+        r1 = ["ctx", "default_ser", None, None, None, 0, rng.choice(["turtle", "xml", "n3", "pretty-xml", "longturtle"])]
+        r2 = rng.choice([["ctx", "graphs", None, None, None, 0, "id"], ["ctx", "contexts", None, None, None, 0, "id"],
+                         ["ser", "trig", "plain"], ["ser", "trix", "plain"], ["ser", "nquads", "plain"],
+                         ["ser", "json-ld", "plain"], ["q", "SELECT ?g WHERE { GRAPH ?g { ?s ?p ?o } }", 0]])
+        if cfg in ("g", "view"):
+            r1 = ["ser", "turtle", "base"]
+        return fam, r1, r2
     if fam == "base":
         t = rng.choice(BASE_Q).replace("{P}", _n3(TERM[rng.choice([10, 11])]))
         a, b = rng.sample(BASES, 2)
@@ -514,6 +555,13 @@ def gen_case(rng, tier, i):
     cfg = rng.choice(["ds", "ds", "ds", "dsu", "dsu", "cg", "cgd", "g", "view"])
     quads, empty = gen_dataset(rng, cfg)
     case = {"cfg": cfg, "quads": quads, "empty": empty, "twice": rng.random() < 0.6, "nobind": rng.random() < 0.4}
+    if cfg in ("ds", "dsu", "view") and rng.random() < 0.3:
+        # Dataset(default_graph_base=…): an attribute of the dataset's own default graph that reads must leave alone;
+        # mostly with a default graph that never held a triple and was never listed (data in named graphs only)
+        case["dgbase"] = True
+        if rng.random() < 0.7:
+            quads[:] = [q for q in quads if q[3] != 0]
+            empty[:] = [g for g in empty if g != 0]
     if cfg == "view":
         gs = sorted({q[3] for q in quads} | set(empty)) or [0]
         case["view"] = rng.choice(gs + [9])
@@ -524,7 +572,7 @@ def gen_case(rng, tier, i):
         reads = [r1, r2] if rng.random() < 0.5 else [r2, r1]
         if rng.random() < 0.3:
             reads.insert(rng.randint(1, 2), gen_aba(rng, cfg, case)[rng.randint(1, 2)])
-        twice = rng.random() < (0.7 if fam in ("prepq", "pathvar", "iso") else 0.25)
+        twice = rng.random() < (0.7 if fam in ("prepq", "pathvar", "iso", "serobj") else 0.25)
         case.update({"twice": twice, "reads": reads, "ref": True, "aba": fam})
         return case
     case["ref"] = rng.random() < 0.08
@@ -555,10 +603,11 @@ def _gid(cfg, g):
 
 def build(case):
     cfg = case["cfg"]
+    dgb = {"default_graph_base": EX} if case.get("dgbase") else {}
     if cfg in ("ds", "view"):
-        top = Dataset()
+        top = Dataset(**dgb)
     elif cfg == "dsu":
-        top = Dataset(default_union=True)
+        top = Dataset(default_union=True, **dgb)
     elif cfg == "cg":
         top = ConjunctiveGraph(identifier=CG_DEFAULT)
     elif cfg == "cgd":
@@ -599,6 +648,7 @@ def build_other(case):
 
 _OPER = {}
 _PATHS = {}
+_SEROBJ = {}     # serializer plugin OBJECTS the caller keeps and re-uses: format -> instance
 
 
 def build_aux(case, top):
@@ -607,6 +657,7 @@ def build_aux(case, top):
     _OPER.clear()
     _OPER["top"] = top
     _PATHS.clear()
+    _SEROBJ.clear()
 
 
 def _operand(case, kind, g):
@@ -665,10 +716,31 @@ def snapshot(case, top):
     return sorted(quads), sorted(names)
 
 
-def _obs_line(snap, ns=()):
+def _obs_line(snap, ns=(), base="-"):
     qs, names = snap
     return (" ".join(sorted(",".join(q) for q in qs)) + " | " + " ".join(sorted(names))
-            + " | " + " ".join(sorted(ns)))
+            + " | " + " ".join(sorted(ns)) + " | " + base)
+
+
+def base_obs(top):
+    """the base IRI of the dataset's own default graph (a plain graph: its own base), as a namespace id"""
+    b = top.default_context.base if isinstance(top, ConjunctiveGraph) else top.base
+    return "-" if b is None else str(NS_REV.get(str(b), "?" + str(b)))
+
+
+def attr_snapshot(top, target):
+    """attributes of the objects being read that no read may change (besides triples, graphs, bindings)"""
+    a = {"base": top.base, "identifier": top.identifier, "namespace_manager": id(top.namespace_manager),
+         "store": id(top.store), "default_union": getattr(top, "default_union", None)}
+    if isinstance(top, ConjunctiveGraph):
+        dc = top.default_context
+        a.update({"default_context": id(dc), "default_context.base": dc.base,
+                  "default_context.identifier": dc.identifier,
+                  "default_context.namespace_manager": id(dc.namespace_manager)})
+    if target is not top:
+        a.update({"view.base": target.base, "view.identifier": target.identifier, "view.store": id(target.store),
+                  "view.namespace_manager": id(target.namespace_manager)})
+    return a
 
 
 _DEFAULT_NS = None
@@ -944,6 +1016,17 @@ def do_read(case, top, target, rd):
             if repr(chain) != shape:
                 _SIDE_VIOL.append(f"argument-mutated:pathvar: the path object kept by the caller changed from {shape} "
                                   f"to {repr(chain)} while a path derived from it ({deriv}) was built / read")
+    if api == "serobj":
+        fmt = rd[1]
+        ser = _SEROBJ.get(fmt)
+        if ser is None:
+            ser = _SEROBJ[fmt] = rdflib.plugin.get(fmt, rdflib.serializer.Serializer)(target)
+        buf = io.BytesIO()
+        ser.serialize(buf, encoding="utf-8")
+        out = buf.getvalue().decode("utf-8")
+        if fmt in LINE_FORMATS:
+            return sorted(l for l in out.splitlines() if l.strip())
+        return Text(fmt, out, fmt in QUAD_FORMATS and isinstance(target, ConjunctiveGraph))
     if api == "ser":
         _, fmt, optname = rd
         kw = dict(SER_OPTS[optname])
@@ -993,9 +1076,12 @@ def do_read(case, top, target, rd):
                 kw["initNs"] = dict(kw4["ns"])
             if flags & 4:        # one prepared object per query text and case: re-used by later calls with other arguments
                 pkey = (text, _json.dumps(kw4.get("ns"), sort_keys=True))
-                if pkey not in _PREPARED:
-                    _PREPARED[pkey] = prepareQuery(text, initNs=kw4.get("ns") or {})
-                qobj = _PREPARED[pkey]
+                if flags & 16:      # prepared AFRESH at every call (prefixes are resolved when a query is prepared)
+                    qobj = prepareQuery(text, initNs=kw4.get("ns") or {})
+                else:
+                    if pkey not in _PREPARED:
+                        _PREPARED[pkey] = prepareQuery(text, initNs=kw4.get("ns") or {})
+                    qobj = _PREPARED[pkey]
             else:
                 qobj = text
             res = target.query(qobj, **kw)
@@ -1209,6 +1295,9 @@ def do_read(case, top, target, rd):
         if f == "get_graph":
             c = top.get_graph(_gid(cfg, g))
             return [len(c)] + _bag(c)
+        if f == "default_ser":          # the dataset's OWN default graph object, serialised (shows its base)
+            d = top.default_graph if isinstance(top, Dataset) else top.default_context
+            return Text(how, d.serialize(format=how), False)
         if f == "default":
             d = top.default_graph if isinstance(top, Dataset) else top.default_context
             return [_k(d.identifier), len(d)] + _bag(d.triples(pat))
@@ -1299,13 +1388,18 @@ def same_answer(a, b):
     return a == b
 
 
+def _qform(text):
+    m = re.search(r"\b(SELECT|ASK|CONSTRUCT|DESCRIBE)\b", text)
+    return m.group(1) if m else "SELECT"
+
+
 def api_name(rd):
     if rd[0] == "oser":
         return "oser/" + rd[1]
-    if rd[0] == "ser":
-        return "ser/" + rd[1]
+    if rd[0] in ("ser", "serobj"):
+        return rd[0] + "/" + rd[1]
     if rd[0] == "q":
-        return "query/" + rd[1].split()[0]
+        return "query/" + _qform(rd[1])
     if rd[0] == "pathvar":
         return "pathvar/" + rd[2]
     return rd[0] + "/" + str(rd[1])
@@ -1519,6 +1613,7 @@ def _run_impl(case, refs=None):
 
     ns_before = set(top.namespaces())
     ns_ids = [ns_obs(top)]
+    attrs = [attr_snapshot(top, target)]
 
     def check_state(k, rd, phase):
         nonlocal before, ns_before
@@ -1535,6 +1630,12 @@ def _run_impl(case, refs=None):
         ns_ids[0] = ns_obs(top)
         while _SIDE_VIOL:
             viol.append(_SIDE_VIOL.pop())
+        a_now = attr_snapshot(top, target)
+        if a_now != attrs[0]:
+            ch = {k: (attrs[0][k], a_now[k]) for k in a_now if a_now[k] != attrs[0][k]}
+            viol.append(f"attr-mutated:{api_name(rd)}: read #{k} {rd!r} ({phase}) changed attributes of the {case['cfg']} "
+                        f"being read (nothing was written): " + "; ".join(f"{k_}: {v[0]!r} -> {v[1]!r}" for k_, v in sorted(ch.items())))
+            attrs[0] = a_now
         now = snapshot(case, top)
         if now != before:
             bq, aq = set(before[0]), set(now[0])
@@ -1570,7 +1671,7 @@ def _run_impl(case, refs=None):
                 viol.append(f"nondeterministic:{name}: read #{k} {rd!r} answered differently on call {rep_no} in a row: "
                             f"{_short(a1)} vs {_short(a2)}")
                 break
-        obs.append(_obs_line(now, ns_ids[0]))
+        obs.append(_obs_line(now, ns_ids[0], base_obs(top)))
         bump("api_" + rd[0])
         if rd[0] == "ser":
             bump("fmt_" + rd[1])
@@ -1587,7 +1688,7 @@ def _run_impl(case, refs=None):
         elif not same:
             viol.append(f"nondeterministic:{api_name(reads[0])}: read {reads[0]!r} answered differently after the "
                         f"read-only sequence {reads[1:]!r}: {_short(first_ans)} vs {_short(again)}")
-        obs.append(_obs_line(now, ns_ids[0]))
+        obs.append(_obs_line(now, ns_ids[0], base_obs(top)))
     for k_s, enc in sorted((refs or {}).items(), key=lambda kv: int(kv[0])):
         k = int(k_s)
         a = first_answers[_json.dumps(reads[k])][1]
@@ -1705,6 +1806,14 @@ def model_read(case, rd):
     api = rd[0]
     if api == "ser":
         return _model_ser(rd, multi)
+    if api == "serobj":           # a re-used serializer object: the same store calls as a fresh one
+        return _model_ser(["ser", rd[1], "plain"], multi)
+    if api == "ctx" and rd[1] == "default_ser" and multi:
+        # serialising the dataset's OWN default graph object = a read through a view of it; that graph carries the
+        # default_graph_base, so the Turtle family writes predicates of that namespace as <rel> (no binding)
+        base = 1 if case.get("dgbase") else "-"
+        return {"turtle": f"readv d turtle {base}", "n3": f"readv d turtle {base}", "xml": "readv d xml",
+                "pretty-xml": "readv d prettyxml 3", "longturtle": f"readv d longturtle 0 {base}"}[rd[6]]
     if api == "oser":
         return "read pure"            # another graph (own store) is serialised: this dataset is not involved
     if api == "iso":
@@ -1729,7 +1838,7 @@ def model_read(case, rd):
         gvar = 1 if "GRAPH ?g" in rd[1] else 0
         rev = _tok_rev()
         consts = [rev[m] for m in re.findall(r"GRAPH (<[^>]*>)", rd[1])]
-        kind = {"SELECT": "s", "ASK": "a", "CONSTRUCT": "c", "DESCRIBE": "d"}[rd[1].split()[0]]
+        kind = {"SELECT": "s", "ASK": "a", "CONSTRUCT": "c", "DESCRIBE": "d"}[_qform(rd[1])]
         shape = q_shape(rd)
         return (f"read query {gvar} {','.join(clauses) or '-'} {0 if rd[2] & 1 else 1} {kind} "
                 f"{','.join(consts) or '-'} {0 if rd[2] & 2 else 1} {shape[1] if shape else 'x'}")
@@ -1773,6 +1882,8 @@ def _model_plan(case):
         plan.append(("bind 1", None))
     for _pfx, ns in case.get("binds", []):
         plan.append((f"bind {NS_REV[ns]}", None))
+    if case.get("dgbase") and cfg in ("ds", "dsu", "view"):
+        plan.append(("dgbase 1", None))
     for s, p, o, g in case["quads"]:
         plan.append((f"quad {s} {p} {o} {GTOK[g]}", None))
     for g in case.get("empty", []):
@@ -1801,7 +1912,7 @@ def model_lines(case):
 
 
 def _canon_model_line(line):
-    parts = (line.split("|") + ["", ""])[:3]
+    parts = (line.split("|") + ["", "", "-"])[:4]
     return " | ".join(" ".join(sorted(p.split())) for p in parts)
 
 
